@@ -57,6 +57,7 @@ var c01 = gen.Register(&gen.Check[caseC01]{
 	},
 	Required: []string{"k=0", "k=1", "k>=2^255", "k=n-1", "p:identity", "nil-scalar", "used-scalar-object"},
 	Run: func(c caseC01, o *gen.Obs) error {
+		hostileCaller()
 		p, err := pt.Build(c.P)
 		if err != nil {
 			o.Class("skipped:builder-error")
